@@ -8,5 +8,5 @@ for p in $props; do
   VERIF_SEED=$seed VERIF_SECS=$secs ./check.py $p quick > /tmp/soak/$seed/$p.out 2>&1
   echo "$p rc=$? $(grep SUMMARY /tmp/soak/$seed/$p.out | cut -d' ' -f5-9)"
 done
-cat /tmp/soak/$seed/C*.out | grep -A1 "^VIOLATION" | grep "class=" | sed 's/node [0-9]* level -*[0-9]*/node N level L/; s/point [0-9]* ([0-9]*->[0-9]*)/point P/; s/e[0-9]*@F[0-9]*/eN@FN/g' | cut -c1-330 | sort | uniq -c | sort -rn
-grep -h BROKEN /tmp/soak/$seed/C*.out | cut -c1-200 | sort | uniq -c | head
+for p in $props; do cat /tmp/soak/$seed/$p.out; done | grep -A1 "^VIOLATION" | grep "class=" | sed 's/node [0-9]* level -*[0-9]*/node N level L/; s/point [0-9]* ([0-9]*->[0-9]*)/point P/; s/e[0-9]*@F[0-9]*/eN@FN/g' | cut -c1-330 | sort | uniq -c | sort -rn
+for p in $props; do cat /tmp/soak/$seed/$p.out; done | grep -h BROKEN | cut -c1-200 | sort | uniq -c | head
